@@ -95,6 +95,13 @@ class MstSuite(Suite):
                     cls = cls + "-far"
                 out.append({"class": f"{cls}/bf{bf}/k{k}", "points": pts, "bf": bf, "k": k, "exclude_soma": rng.random() < 0.6,
                             "soma": rng.random() < 0.4, "sort": rng.random() < 0.5, "api": cls.split("-")[0]})
+        # the corners of the option space, each with a guaranteed share: balancing factor at its bounds × root exempt or not × small limits
+        for bf in (0.0, 1.0):
+            for ex in (False, True):
+                for kk in (1, 2):
+                    pts = cloud(rng, rng.choice([6, 9, 12]), dim=rng.choice([2, 3]))
+                    out.append({"class": f"corner/bf{bf}/k{kk}/ex{int(ex)}", "points": pts, "bf": bf, "k": kk, "exclude_soma": ex,
+                                "soma": rng.random() < 0.4, "sort": rng.random() < 0.5, "api": "cuntz"})
         # dense clouds far from the origin: many nearly equal candidate edges, resolved only in double precision
         for _ in range(3 if not big else 8):
             off = [1.0e6, 2.0e6, 1.5e6]
